@@ -3743,13 +3743,51 @@ wb_set_offset(struct archive_write *a, int64_t off)
 		lseek(iso9660->temp_fd, iso9660->wbuff_offset, SEEK_SET);
 		iso9660->wbuff_remaining = sizeof(iso9660->wbuff);
 		used = 0;
+		if (iso9660->wbuff_tail > iso9660->wbuff_offset) {
+			/*
+			 * Bring back the bytes behind the last full logical
+			 * block, which were parked in the temporary file
+			 * when the buffer was moved away (see below).
+			 */
+			size_t parked = (size_t)
+			    (iso9660->wbuff_tail - iso9660->wbuff_offset);
+			size_t got = 0;
+
+			while (got < parked) {
+				ssize_t rs = read(iso9660->temp_fd,
+				    iso9660->wbuff + got, parked - got);
+				if (rs <= 0) {
+					archive_set_error(&a->archive, errno,
+					    "Can't read temporary file(%jd)",
+					    (intmax_t)rs);
+					return (ARCHIVE_FATAL);
+				}
+				got += (size_t)rs;
+			}
+			lseek(iso9660->temp_fd, iso9660->wbuff_offset,
+			    SEEK_SET);
+		}
 	}
 	if (off < iso9660->wbuff_offset) {
 		/*
 		 * Write out waiting data.
 		 */
 		if (used > 0) {
+			size_t rest;
+
 			if (wb_write_out(a) != ARCHIVE_OK)
+				return (ARCHIVE_FATAL);
+			/*
+			 * wb_write_out() keeps what does not fill a logical
+			 * block at the head of the buffer, and the buffer is
+			 * about to be used for another place: park those
+			 * bytes in the temporary file, right behind the
+			 * blocks just written.
+			 */
+			rest = sizeof(iso9660->wbuff) -
+			    iso9660->wbuff_remaining;
+			if (rest > 0 && write_to_temp(a, iso9660->wbuff,
+			    rest) != ARCHIVE_OK)
 				return (ARCHIVE_FATAL);
 		}
 		lseek(iso9660->temp_fd, off, SEEK_SET);
